@@ -26,7 +26,23 @@ def join(a, b):
         return a
     must = a & b
     may = frozenset(f for f in (a | b) if f[0] == "O")
-    return must | may
+    out = must | may
+    # guards that depend only on the file version are never lost at a join: what holds afterwards is the disjunction of what
+    # held on either side, so `if (V1) { if (V2) return; }` and `if (V1 && V2) return;` leave the same knowledge
+    va = frozenset(f for f in a - b if f[0] == "G" and VER in f[3])
+    vb = frozenset(f for f in b - a if f[0] == "G" and VER in f[3])
+    if va and vb:
+        ka = tuple(sorted((f[1], f[2]) for f in va))
+        kb = tuple(sorted((f[1], f[2]) for f in vb))
+        conjs = tuple(sorted({ka, kb}))
+        key = "V{" + " | ".join(" & ".join(("" if pol else "!") + k for k, pol in c) for c in conjs) + "}"
+        if len(key) < 2000:
+            _reg(key, {"k": "VerOr", "conjs": conjs})
+            out = out | {("G", key, True, frozenset({VER}))}
+    return out
+
+
+VER = ("ver",)  # dependency marker of a guard built only from NiVersion accessors and constants
 
 
 def is_zero_lit(e):
@@ -140,6 +156,29 @@ def implied(e, pol):
     # smart-pointer / optional style: `if (p)` on OpCall 'operator bool' appears as Call short 'operator bool'
     if k == "Call" and e.get("short") == "operator bool" and e.get("recv") is not None:
         out |= implied(e["recv"], pol)
+    return out
+
+
+def _is_version_pure(node):
+    import versions
+    if isinstance(node, tuple):
+        node = node[1] if len(node) > 1 else None
+    if is_node(node) and node["k"] == "VerOr":
+        return True
+    return is_node(node) and versions.pure_version_init(node)
+
+
+def _ver_deps(e):
+    d = deps_of(e)
+    return d | {VER} if _is_version_pure(e) else d
+
+
+def _mark_version(facts):
+    out = set()
+    for f in facts:
+        if f[0] == "G" and VER not in f[3] and _is_version_pure(KEYNODE.get(f[1])):
+            f = (f[0], f[1], f[2], f[3] | {VER})
+        out.add(f)
     return out
 
 
@@ -260,6 +299,46 @@ def range_sizes(body):
     return out
 
 
+def counted_loop(s):
+    """for (T i = 0; i < N; i++ / ++i) whose body never assigns i and whose bound N does not mention i -> the node N, else None"""
+    if s.get("k") != "For" or not is_node(s.get("init")) or not is_node(s.get("cond")) or not is_node(s.get("inc")):
+        return None
+    init, cond, inc = s["init"], s["cond"], s["inc"]
+    if init["k"] != "Decl" or len(init.get("vars", [])) != 1:
+        return None
+    v = init["vars"][0]
+    i0 = v.get("init")
+    while is_node(i0) and i0["k"] == "Cast":
+        i0 = i0["e"]
+    if not (is_node(i0) and i0.get("val") == 0 and i0["k"] in ("Lit", "Cast")):
+        return None
+
+    def is_i(e):
+        while is_node(e) and e["k"] == "Cast":
+            e = e["e"]
+        return is_node(e) and e["k"] == "Ref" and e.get("id") == v["id"]
+
+    if cond["k"] != "Binary" or cond["op"] not in ("<", ">", "!="):
+        return None
+    if cond["op"] in ("<", "!=") and is_i(cond["l"]):
+        bound = cond["r"]
+    elif cond["op"] == ">" and is_i(cond["r"]):
+        bound = cond["l"]
+    else:
+        return None
+    if not (inc["k"] == "Unary" and inc["op"] == "++" and is_i(inc["e"])):
+        return None
+    if any(x["k"] == "Ref" and x.get("id") == v["id"] for x in walk(bound)):
+        return None
+    for x in walk(s.get("body") or {}):
+        t = x["l"] if x["k"] == "Assign" else (x["e"] if x["k"] == "Unary" and x["op"] in ("++", "--") else None)
+        if is_i(t):
+            return None
+    while is_node(bound) and bound["k"] == "Cast":
+        bound = bound["e"]
+    return bound
+
+
 class Flow:
     """Subclass and override the on_* hooks.  run() drives the analysis of one function."""
 
@@ -270,6 +349,7 @@ class Flow:
         self.muted = 0
         self.partition = True
         self.loop_stack = []  # canonical descriptions of the loops enclosing the node being visited
+        self.loop_cond_keys = []  # for canonical counted loops: the guard key of the loop condition (it is the loop, not a gate)
         self._range_sized = None  # id(RangeFor) -> rendering of the count its container was resized to just before
         self.exits = []  # (kind, node, state) for every return / fall-off-end, final pass only
 
@@ -427,7 +507,9 @@ class Flow:
             t1, f1 = self.cond(e["l"], st)
             t2, f2 = self.cond(e["r"], t1)
             f = join(f1, f2)
-            whole = ("G", _reg(show(e), e), None, deps_of(e))
+            if self.const_cond(e["l"]) is not None or self.const_cond(e["r"]) is not None:
+                return t2, f  # one side is decided here (stream mode, bound constant): the other side's own facts say it all
+            whole = ("G", _reg(show(e), e), None, _ver_deps(e))
             if t2 is not BOT:
                 t2 = t2 | {(whole[0], whole[1], True, whole[3])}
             if f is not BOT:
@@ -437,7 +519,9 @@ class Flow:
             t1, f1 = self.cond(e["l"], st)
             t2, f2 = self.cond(e["r"], f1)
             t = join(t1, t2)
-            whole = ("G", _reg(show(e), e), None, deps_of(e))
+            if self.const_cond(e["l"]) is not None or self.const_cond(e["r"]) is not None:
+                return t, f2
+            whole = ("G", _reg(show(e), e), None, _ver_deps(e))
             if t is not BOT:
                 t = t | {(whole[0], whole[1], True, whole[3])}
             if f2 is not BOT:
@@ -454,6 +538,7 @@ class Flow:
                     if is_node(dn):
                         t |= implied(dn, True)
                         f |= implied(dn, False)
+        t, f = _mark_version(t), _mark_version(f)
         # a branch contradicting a known fact is unreachable
         t |= history_facts(t)
         f |= history_facts(f)
@@ -614,19 +699,28 @@ class Flow:
                 back = self.expr(s["inc"], back)
             return back, join(f, b), r
 
+        cond_key = None
         if k == "RangeFor":
             if self._range_sized is None:
                 self._range_sized = range_sizes(self.fn.get("body"))
             sized = self._range_sized.get(id(s))
-            self.loop_stack.append("each " + show(s["range"]) + (" sized " + sized if sized else ""))
+            # a range loop over a container that was just resized to n repeats n times: same canonical form as the counted loop
+            self.loop_stack.append(("repeat " + sized) if sized else ("each " + show(s["range"])))
         elif s.get("cond") is not None:
-            self.loop_stack.append("while " + show(s["cond"]))
+            cnt = counted_loop(s)
+            if cnt is not None:
+                self.loop_stack.append("repeat " + show(cnt))
+                cond_key = norm_cmp(s["cond"])[0]
+            else:
+                self.loop_stack.append("while " + show(s["cond"]))
         else:
             self.loop_stack.append("forever")
+        self.loop_cond_keys.append(cond_key)
         try:
             ex, b, c, r = self._loop_body(s, st, once)
         finally:
             self.loop_stack.pop()
+            self.loop_cond_keys.pop()
         # variables scoped to the loop go out of scope: facts about them are meaningless afterwards
         scoped = []
         if k == "For" and is_node(s.get("init")) and s["init"]["k"] == "Decl":
@@ -870,6 +964,7 @@ class Collect(Flow):
         self.want = want
         self.at = []  # (node, state) in visiting order, final pass only
         self.loops_at = {}
+        self.loop_keys_at = {}
         self.modevars = {}  # local var id -> mode for which the var is non-null/true
 
     def on_decl(self, v, st):
@@ -898,6 +993,7 @@ class Collect(Flow):
         if not self.muted and self.want(n):
             self.at.append((n, st))
             self.loops_at[id(n)] = tuple(self.loop_stack)
+            self.loop_keys_at[id(n)] = tuple(k_ for k_ in self.loop_cond_keys if k_)
         return st
 
     def by_node(self):
